@@ -66,6 +66,9 @@ package main
 //     becomes `if c then [A; rest] else [rest]` when a branch can leave (return, break, continue, panic); when no branch
 //     can, the if is an expression whose value is the tuple of the variables its branches assign, and rest follows once:
 //     `let '(x, y) := (if c then [A; (x', y')] else (x, y)) in [rest]` (go_bind instead of let when A can panic).
+//     The same for a switch statement none of whose clauses can leave (fallthrough is allowed: the next clause's body
+//     is translated in place; break is not): `go_bind (let tag := e in if tag = k1 then [A1; A2; (x', y')] else if ...
+//     else (x, y)) (fun '(x, y) => [rest])`, so what follows a falling-through switch is translated once, not per case.
 //
 // LOOPS
 //   A loop becomes a top-level Fixpoint <function>_loop<k> (k = number of the loop in source
